@@ -18,7 +18,7 @@ def _new_chunk_with_bit(chunk: Node, i: int, v: boolean) -> Node:
         new_chunk_root[(i & 0xff) >> 3] |= 1 << (i & 0x7)
     else:
         new_chunk_root[(i & 0xff) >> 3] &= (~(1 << (i & 0x7))) & 0xff
-    return RootNode(Root(new_chunk_root))
+    return RootNode(Root(bytes(new_chunk_root)))  # an immutable root, like every other node
 
 
 # alike to the SubtreeView, but specialized to work on individual bits of chunks, instead of complex/basic types.
